@@ -41,28 +41,36 @@ def run(pkg, pid, tier, seed):
         raise vlib.ToolError("actions never taken in any model-checking configuration (vacuous): %s" % ", ".join(never))
     # ---- V
     batches = []
-    for feat, tiers in pkg["builds"]:
+    listed = {f.get("deviation") for f in vlib.load_findings().get("known", [])}
+    # a build is (features, tiers) or (features, tiers, harness command, deviation): the latter is a scenario family that
+    # exercises a named deviation and runs only once that deviation is listed in known_findings.json
+    for b in pkg["builds"]:
+        feat, tiers = b[0], b[1]
+        cmd = b[2] if len(b) > 2 else pkg["family"]
         if tier not in tiers:
             continue
-        label = "%s_%s%s" % (pkg["family"], pid, ("_" + feat) if feat else "")
+        if len(b) > 3 and b[3] not in listed:
+            log("[V] %s skipped: deviation %s is not listed in known_findings.json" % (cmd, b[3]))
+            continue
+        label = "%s_%s%s" % (cmd, pid, ("_" + feat) if feat else "")
         w = vlib.workdir(label)
         trace = os.path.join(w, "batch.ndjson")
-        summ = vlib.harness([pkg["family"], "--out", trace, "--tier", tier, "--seed", seed], features=feat)
+        summ = vlib.harness([cmd, "--out", trace, "--tier", tier, "--seed", seed], features=feat)
         if summ.get("bad_runs"):
             log("[V] %s: %d runs did not end within the step budget" % (feat or "default", summ["bad_runs"]))
         vb = vlib.validate_batch(pkg["trace_module"], pkg["trace_cfg"], trace, label)
-        log("[V] %s build: %d runs, %d events, strict accepted %d, divergences %d, rejected %d (%.0fs)" % (
-            feat or "default", vb["runs"], vb["events"], vb["strict_accepted"], len(vb["divergences"]), len(vb["violations"]), vb["wall_s"]))
+        log("[V] %s, %s build: %d runs, %d events, strict accepted %d, divergences %d, rejected %d (%.0fs)" % (
+            cmd, feat or "default", vb["runs"], vb["events"], vb["strict_accepted"], len(vb["divergences"]), len(vb["violations"]), vb["wall_s"]))
         for viol in vb["violations"]:
             meta = json.loads(viol["run"][0]).get("meta", {})
             ev = viol.get("lenient_event") or viol.get("strict_event") or "{}"
-            sig = "%s%s first-unexplained=%s" % (pkg["family"], ("/" + feat) if feat else "", _label(ev))
+            sig = "%s%s first-unexplained=%s" % (cmd, ("/" + feat) if feat else "", _label(ev))
             v.violation(sig, {"family": pkg["family"], "features": feat, "meta": meta, "trace": [json.loads(x) for x in viol["run"]],
                               "first_unexplained": viol.get("lenient_event_index"), "event": ev})
         for name, n in vb["deviations"].items():
             if pkg.get("dev_owner", {}).get(name) == pid:
                 v.deviation(name, n)
-        batches.append((feat, summ, vb))
+        batches.append((feat if cmd == pkg["family"] else (cmd + ("/" + feat if feat else "")), summ, vb))
     if not batches:
         raise vlib.ToolError("no harness build selected for tier %s" % tier)
     cov = {
